@@ -356,34 +356,103 @@ def _index_source(fi, e):
     return None
 
 
+def _rebound_fresh_before(node, var, program, module):
+    """True when, walking outwards from `node`, the closest preceding sibling statement that binds `var`
+    binds it to a fresh list - the in-place edit then acts on that new list (straight-line re-binding in the
+    same branch), whatever other branches bound the name to."""
+    from ..mutation import is_fresh_expr
+
+    cur = node
+    while cur is not None and not isinstance(cur, (ast.FunctionDef, ast.AsyncFunctionDef)):
+        par = getattr(cur, "_parent", None)
+        if par is None:
+            return False
+        for field in ("body", "orelse", "finalbody"):
+            seq = getattr(par, field, None)
+            if isinstance(seq, list) and cur in seq:
+                for st in reversed(seq[: seq.index(cur)]):
+                    binds = [t for t in (st.targets if isinstance(st, ast.Assign) else []) if isinstance(t, ast.Name) and t.id == var]
+                    if binds:
+                        return is_fresh_expr(st.value, program, module)
+                    if any(isinstance(x, ast.Name) and x.id == var and isinstance(x.ctx, ast.Store) for x in ast.walk(st)):
+                        return False
+        cur = par
+    return False
+
+
 def _index(r, p, cg, summ):
     from .c06 import _struct_mutation
+
+    # functions that may hand an index-owned list back to their caller (fixpoint over returns)
+    ret_index = {}
+
+    def source(fi, e):
+        d = _index_source(fi, e)
+        if d is not None:
+            return d
+        if isinstance(e, ast.Call) and ret_index:
+            s = summ.site(fi, e)
+            if s is not None and s.kind == "resolved" and any(t.key in ret_index for t in s.targets):
+                return "INDEX"
+        return None
+
+    direct = set()
+    for fi in p.functions.values():
+        if any(_index_source(fi, n) is not None for n in walk_function(fi.node)):
+            direct.add(fi.key)
+    cand = set(direct)
+    for _round in range(6):
+        grew = False
+        names = {k.split(":")[-1].split(".")[-1] for k in ret_index}
+        if names:
+            for fi in p.functions.values():
+                if fi.key in cand:
+                    continue
+                for n in walk_function(fi.node):
+                    if isinstance(n, ast.Call) and ((isinstance(n.func, ast.Attribute) and n.func.attr in names) or (isinstance(n.func, ast.Name) and n.func.id in names)):
+                        cand.add(fi.key)
+                        break
+        for k in sorted(cand):
+            fi = p.functions[k]
+            if k in ret_index or (fi.module.name == "vsg.token_map" and fi.cls is not None):
+                continue  # the index's own accessors are the sources themselves
+            org = summ.origins(fi, source)
+            for n in walk_function(fi.node):
+                if isinstance(n, ast.Return) and n.value is not None and "INDEX" in summ.expr_origins(fi, n.value, org, source):
+                    ret_index[k] = fi.loc(n)
+                    grew = True
+                    break
+        if not grew:
+            break
+    r.extra["functions_returning_index_owned_lists"] = sorted(ret_index)
 
     n_src = 0
     for fi in p.functions.values():
         has = False
         for n in walk_function(fi.node):
-            if _index_source(fi, n) is not None:
+            if source(fi, n) is not None:
                 has = True
                 n_src += 1
         if not has:
             continue
         if fi.module.name == "vsg.token_map" and fi.name == "process_tokens":
             continue
-        org = summ.origins(fi, _index_source)
+        org = summ.origins(fi, source)
         for m in mutation_sites(fi):
             if m.kind == "attr-store" or m.root is None:
                 continue
             if m.path and not (m.kind == "item-store"):
-                direct = _index_source(fi, m.recv)
-                if not direct:
+                direct_src = source(fi, m.recv)
+                if not direct_src:
                     continue
             tags = set(org.get(m.root, set())) if not m.path else set()
-            d = _index_source(fi, m.recv)
+            d = source(fi, m.recv)
             if d:
                 tags.add(d)
             if "INDEX" in tags:
                 if fi.module.name == "vsg.token_map" and fi.cls is not None and fi.name == "__init__":
+                    continue
+                if not m.path and _rebound_fresh_before(m.node, m.root, p, fi.module):
                     continue
                 r.fail("C18.index", m.key, "a list owned by the token index is mutated in place (`%s`): the index no longer mirrors the token list" % norm(m.node)[:70], fi.loc(m.node))
         for s in cg.sites.get(fi.key, ()):
@@ -395,7 +464,7 @@ def _index(r, p, cg, summ):
                     continue
                 for i, a in enumerate(s.node.args):
                     j = summ.param_index_for_arg(fi, s.node, t, i)
-                    if j in tm and "INDEX" in summ.expr_origins(fi, a, org, _index_source) and _struct_mutation(p, summ, t, j):
+                    if j in tm and "INDEX" in summ.expr_origins(fi, a, org, source) and _struct_mutation(p, summ, t, j):
                         r.fail("C18.index", "%s:%s" % (fi.key, norm(s.node)[:90]), "a list owned by the token index is passed to %s, which mutates that argument" % t.key, fi.loc(s.node))
     r.extra["index_source_sites"] = n_src
     if n_src < 40:
@@ -538,6 +607,10 @@ VARIANTS = [
             [("vsg/rules/whitespace_between_tokens.py", "        self.left_token = None\n", "        self.left_token = None\n        self.remap = False\n")], rule="C18.remap"),
     Variant("C18", "extractor filters the index list in place", "fire",
             [(_X + "get_tokens_matching.py", "    for oToken in lTokens:\n", "    for oToken in lTokens:\n        oTokenMap.get_token_indexes(oToken).sort()\n")], rule="C18.index"),
+    Variant("C18", "helper returns the index's own list, a caller two calls up appends a sentinel", "fire",
+            [("vsg/vhdlFile/extract/utils.py", "def get_indexes_of_token_list(lTokens, oTokenMap):\n", "def get_indexes_of_token_list(lTokens, oTokenMap):\n    if len(lTokens) == 1:\n        return oTokenMap.get_token_indexes(lTokens[0])\n")], rule="C18.index", key="lStartIndexes.append(iMax)"),
+    Variant("C18", "twin: helper returns a copy of the index's list", "silent",
+            [("vsg/vhdlFile/extract/utils.py", "def get_indexes_of_token_list(lTokens, oTokenMap):\n", "def get_indexes_of_token_list(lTokens, oTokenMap):\n    if len(lTokens) == 1:\n        return list(oTokenMap.get_token_indexes(lTokens[0]))\n")]),
     Variant("C18", "index rebuild dropped after normalisers", "fire",
             [("vsg/rule_list.py", "                self.oVhdlFile.fix_trailing_whitespace()\n                self.oVhdlFile.update_token_map()", "                self.oVhdlFile.fix_trailing_whitespace()")], rule="C18.rebuild"),
     Variant("C18", "update applies updates first-to-last", "fire",
